@@ -383,12 +383,18 @@ func (c *Ctx) typeFacts(term string, t types.Type, alloc string) string {
 		}
 		return "true"
 	case *types.Pointer, *types.Map, *types.Chan:
-		if alloc == "" {
-			return "true"
+		// map and channel values denote runtime objects that are never part of
+		// (and never contain) a user-visible struct, array or variable
+		kind := fmt.Sprintf("(not (ismapobj (pobj %s)))", term)
+		if _, isPtr := u.(*types.Pointer); !isPtr {
+			kind = fmt.Sprintf("(ismapobj (pobj %s))", term)
 		}
-		return fmt.Sprintf("(or (= %s nil) (< (pobj %s) %s))", term, term, alloc)
+		if alloc == "" {
+			return fmt.Sprintf("(or (= %s nil) %s)", term, kind)
+		}
+		return fmt.Sprintf("(or (= %s nil) (and (< (pobj %s) %s) %s))", term, term, alloc, kind)
 	case *types.Slice:
-		f := fmt.Sprintf("(and (<= 0 (soff %s)) (<= 0 (slen_ %s)) (<= (slen_ %s) (scap %s)) (<= (scap %s) 9223372036854775807) (=> (= (sbase %s) nil) (= %s nilslice))", term, term, term, term, term, term, term)
+		f := fmt.Sprintf("(and (<= 0 (soff %s)) (<= 0 (slen_ %s)) (<= (slen_ %s) (scap %s)) (<= (scap %s) 9223372036854775807) (=> (= (sbase %s) nil) (= %s nilslice)) (or (= (sbase %s) nil) (not (ismapobj (pobj (sbase %s)))))", term, term, term, term, term, term, term, term, term)
 		if alloc != "" {
 			f += fmt.Sprintf(" (or (= (sbase %s) nil) (< (pobj (sbase %s)) %s))", term, term, alloc)
 		}
